@@ -32,6 +32,11 @@ RULE = ("compounds: Hypothesis draws a flat {atom: count} dict (1-8 distinct ato
         "reference; arguments must not be modified by the library). "
         "sweeps: every atom with data x 6 wavelengths through atom.neutron.scattering/.sld and the one-atom "
         "compound; every tabulated atom at every node, every interval midpoint and beyond both ends; "
+        "formula objects: the compound handed over as a Formula object - without density, with a preset density "
+        "(density=/natural_density= at construction, '@' tag, attribute assignment), a single-atom formula with the "
+        "auto-filled density, a mix_by_weight/mix_by_volume mixture (composition and density as served) - called with "
+        "density=, natural_density= or no density keyword; the reference is evaluated at the density that applies, a "
+        "missing density must raise AssertionError, and (structure, density, name) of the object must be unchanged. "
         "no-data: a generated compound plus one atom without b_c must give exactly (None, None, None).")
 ASSUMPTIONS = [
     "per-atom b_c, absorption, total and mass are the served fields (C06/C07 tie them to the raw tables); ion mass "
@@ -44,6 +49,10 @@ ASSUMPTIONS = [
     "Ra and Ra-226 (b_c tabulated, no element density) are neither 'with' nor 'without' neutron data: not generated",
     "a np.float32 wavelength/energy scalar is judged at its float32 value with rel 1e-6 (numpy keeps float32 in the "
     "outputs proportional to it); all other argument types at rel 1e-10",
+    "a density= / natural_density= keyword is the mass density of the calculation (parameter list of the "
+    "neutron_scattering docstring) and therefore replaces a density stored on a Formula object passed as compound; "
+    "with no keyword the object's own density applies; the docstring's ':Raises: AssertionError: density is missing' "
+    "covers an object without density",
     "outputs must have the shape of the wavelength/energy argument (docstring: 'vectors if wavelength is a vector')",
 ]
 EXHAUSTIVE = True
@@ -128,6 +137,127 @@ def repeat_calls(ctx, v, case, comp, shape, wkw, edep):
     with unchanged("c03", case, **wkw):
         got = ng.flatten(pt.neutron_scattering(obj0, density=v["dens"][1], **wkw))
     ng.compare_outputs("c03:repeat:wavelengths-changed-in-place", got, comp, v["dens"][1], ref_l, case, tag)
+
+
+# ----------------------------------------------------------------------
+# the compound handed over as a Formula object
+def _snapshot(f):
+    return (f.structure, f.density, f.name)
+
+
+def build_formula_object(v):
+    """(Formula object, composition {(Z,A,c): n}, specs, own density the reference expects
+    (None = no density), class label).  v["comp"] is a dict/tree compound, a single atom
+    or a mixture; v["preset"] says how the object got a density of its own."""
+    E = ng.env()
+    pt, R, T = E["pt"], E["ref"], E["table"]
+    c = v["comp"]
+    name = v.get("name")
+    if c["kind"] == "atom":
+        # single-atom formula: the density is filled in from the element / isotope
+        atom = ng.resolve(T, c["spec"])
+        key = ng.spec_key(E["pool"], c["spec"])
+        n = c["n"]
+        if c["via"] == "atom":
+            f, n = pt.formula(atom, name=name), 1
+        elif c["via"] == "string":
+            f = pt.formula(ng._spec_str(c["spec"]) + (str(n) if n != 1 else ""), name=name)
+        else:
+            f = pt.formula({atom: n}, name=name)
+        return f, {key: float(n)}, [c["spec"]], atom.density, "single-atom:" + c["via"]
+    if c["kind"] == "mix":
+        from periodictable.formulas import mix_by_weight, mix_by_volume
+        from ..atoms import atom_key
+        args, specs = [], []
+        for part, rho_i, q in c["parts"]:
+            obj, comp, sp, route = ng.build_compound(part)
+            args += [pt.formula(obj, density=rho_i), q]
+            specs += sp
+        kw = {}
+        if c["mixdens"] is not None:
+            kw[c["mixdens"][0]] = c["mixdens"][1]
+        f = (mix_by_weight if c["how"] == "weight" else mix_by_volume)(*args, **kw)
+        if name:
+            f.name = name
+        # the mixture is taken as it is served (composition and density of mixtures belong to C11)
+        comp = dict((atom_key(a), float(n)) for a, n in f.atoms.items())
+        return f, comp, specs, f.density, "mixture:" + c["how"]
+    obj, comp, specs, route = ng.build_compound(c)
+    how = v["preset"][0]
+    rp = v["preset"][1] if len(v["preset"]) > 1 else None
+    if how == "none":
+        f, own = pt.formula(obj, name=name), None
+        if len(comp) == 1:
+            own = f.density          # one distinct atom: auto-filled by the library (its rule belongs to C12)
+    elif how == "density-kw":
+        f, own = pt.formula(obj, density=rp, name=name), rp
+    elif how == "natural-kw":
+        f, own = pt.formula(obj, natural_density=rp, name=name), R.density_from_natural(comp, rp)
+    elif how.startswith("tag") and isinstance(obj, str):
+        suffix = how.split(":")[1]
+        f = pt.formula(obj + "@" + ("%.3f" % rp) + suffix, name=name)
+        own = R.density_from_natural(comp, rp) if suffix == "n" else rp
+    elif how == "attr-natural":
+        f = pt.formula(obj, name=name)
+        f.natural_density = rp
+        own = R.density_from_natural(comp, rp)
+    else:                                              # "attr", or a tag on a dict
+        f = pt.formula(obj, name=name)
+        f.density = rp
+        own = rp
+    return f, comp, specs, own, "preset:" + how.split(":")[0] + ":" + route
+
+
+def check_formula_object(ctx, v):
+    """neutron_scattering / neutron_sld on a Formula object: a density= or natural_density= keyword
+    states the density of the calculation (it replaces the one stored on the object); without a
+    keyword the object's own density applies; without any density the call raises AssertionError.
+    The object is not modified."""
+    E = ng.env()
+    pt, R = E["pt"], E["ref"]
+    f, comp, specs, own, label = build_formula_object(v)
+    wkw, lams, shape = ng.build_wavelength(v["wl"])
+    call = v["call"]
+    if call[0] == "density":
+        kw, rho = {"density": call[1]}, call[1]
+    elif call[0] == "natural_density":
+        kw, rho = {"natural_density": call[1]}, R.density_from_natural(comp, call[1])
+    else:
+        kw, rho = {}, own
+    edep = ng.has_edep(comp)
+    tag = "edep" if edep else "ordinary"
+    cls = ng.comp_classes(specs, comp) + ["fobj:" + label, "fobj-call:" + call[0],
+                                          "fobj-own-density:" + ("none" if own is None else "set"),
+                                          "wl:" + v["wl"]["form"], "by:" + v["wl"]["by"]]
+    desc = {"formula": str(f), "own density": own, "call": call, "how": label, "wavelength": v["wl"]}
+    ctx.case((str(desc),), nontrivial=(own is not None and call[0] != "none") or len(comp) >= 2, sample=desc, cls=cls)
+    case = dict(v, kind="formula-object")
+    if own is not None and f.density is not None and not abs(f.density - own) <= 1e-12 * abs(own) \
+            and v["comp"]["kind"] not in ("mix",):
+        raise Violation("c03:formula-object:construction", "%s: density of the object is %r, expected %r"
+                        % (label, f.density, own), case)
+    before = _snapshot(f)
+    kw.update(wkw)
+    if rho is None:
+        try:
+            got = pt.neutron_scattering(f, **kw)
+        except AssertionError:
+            return
+        raise Violation("c03:formula-object:missing-density-accepted",
+                        "%s has no density and none was given, but neutron_scattering returned %r" % (f, got), case)
+    rel = ng.wl_rel(v["wl"]["form"])
+    with unchanged("c03", case, **wkw):
+        got = ng.flatten(pt.neutron_scattering(f, **kw))
+    for o in OUTPUTS:
+        ng.check_shape("c03:formula-object", o, got[o], shape, case)
+    ng.compare_outputs("c03:formula-object:%s:%s" % (label.split(":")[0], call[0]), got, comp, rho, lams, case, tag, rel=rel)
+    sld = pt.neutron_sld(f, **kw)
+    ng.compare_outputs("c03:formula-object:neutron_sld:%s:%s" % (label.split(":")[0], call[0]),
+                       dict(zip(OUTPUTS[:3], sld)), comp, rho, lams, case, tag, outputs=OUTPUTS[:3], rel=rel)
+    after = _snapshot(f)
+    if not (after[0] == before[0] and after[1] == before[1] and after[2] == before[2]):
+        raise Violation("c03:formula-object:modified", "the Formula object passed as compound changed: "
+                        "(structure, density, name) %r -> %r" % (before, after), case)
 
 
 def check_nodata(ctx, v):
@@ -240,6 +370,35 @@ def task_compounds(ctx, n, depth=2):
     ctx.search("compounds", strat_compound(depth), check_compound, n)
 
 
+def strat_formula_object():
+    E = ng.env()
+    rho = ng.density_value()
+    ordinary = st.integers(1, 25000).map(lambda k: k / 1000.0)
+    single = st.fixed_dictionaries({"kind": st.just("atom"), "spec": st.sampled_from(E["with_data"]),
+                                    "n": st.sampled_from([1, 1, 2, 3, 7]),
+                                    "via": st.sampled_from(["atom", "string", "dict"])})
+    part = st.tuples(st.one_of(ng.flat_compound(max_atoms=3), ng.tree_compound(depth=1, max_groups=2, max_atoms=2)),
+                     ordinary, st.one_of(st.integers(1, 9), st.floats(0.01, 50.0).map(lambda x: float("%.4g" % x)))).map(list)
+    mix = st.fixed_dictionaries({"kind": st.just("mix"), "how": st.sampled_from(["weight", "volume"]),
+                                 "parts": st.lists(part, min_size=2, max_size=3),
+                                 "mixdens": st.one_of(st.none(), st.none(), st.tuples(st.just("density"), ordinary).map(list),
+                                                      st.tuples(st.just("natural_density"), ordinary).map(list))})
+    comp = st.one_of(ng.compound(1), ng.compound(2), ng.compound(1), single, mix)
+    preset = st.one_of(st.tuples(st.just("none")), st.tuples(st.just("density-kw"), rho), st.tuples(st.just("density-kw"), rho),
+                       st.tuples(st.just("natural-kw"), rho), st.tuples(st.sampled_from(["tag:", "tag:n", "tag:i"]), ordinary),
+                       st.tuples(st.just("attr"), rho), st.tuples(st.just("attr-natural"), rho)).map(list)
+    call = st.one_of(st.tuples(st.just("density"), rho), st.tuples(st.just("none")),
+                     st.tuples(st.just("natural_density"), rho), st.tuples(st.just("natural_density"), rho),
+                     st.tuples(st.just("density"), rho), st.tuples(st.just("none"))).map(list)
+    return st.fixed_dictionaries({"comp": comp, "preset": preset, "call": call, "name": st.sampled_from([None, None, "sample"]),
+                                  "wl": ng.wavelength_arg(max_len=4)})
+
+
+def task_formula_objects(ctx, n):
+    ng.env()
+    ctx.search("formula-objects", strat_formula_object(), check_formula_object, n)
+
+
 def task_nodata(ctx, n):
     E = ng.env()
     nd = E["specs"]["nodata"]
@@ -283,11 +442,13 @@ def tasks(tier):
                 ("compounds-c", task_compounds, dict(n=600, depth=2)),
                 ("compounds-d", task_compounds, dict(n=600, depth=3)),
                 ("compounds-e", task_compounds, dict(n=600, depth=1)),
+                ("formula-objects", task_formula_objects, dict(n=600)),
                 ("nodata", task_nodata, dict(n=300)),
                 ("sweep-atoms-0", task_sweep_atoms, dict(part=0, parts=2)),
                 ("sweep-atoms-1", task_sweep_atoms, dict(part=1, parts=2)),
                 ("sweep-tables", task_sweep_tables, dict())]
     out = [("compounds-%d" % k, task_compounds, dict(n=12000, depth=1 + k % 3)) for k in range(13)]
+    out += [("formula-objects-%d" % k, task_formula_objects, dict(n=12000)) for k in range(2)]
     out += [("nodata", task_nodata, dict(n=5000)),
             ("sweep-atoms-0", task_sweep_atoms, dict(part=0, parts=1)),
             ("sweep-tables", task_sweep_tables, dict())]
@@ -300,6 +461,8 @@ def replay(ctx, case):
         check_compound(ctx, case)
     elif k == "nodata":
         check_nodata(ctx, case)
+    elif k == "formula-object":
+        check_formula_object(ctx, case)
     elif k == "atom":
         check_atom_route(ctx, case["spec"])
     elif k == "table":
